@@ -6,8 +6,8 @@ from common import clist, cbool, cnat, cstr
 LITS = ["a", "b.c", "x-y=1", "foo"]
 PATS = ["a*", "*.c", "x-?=1", "f[op]o", "[!ab]*", "*"]      # the bare "*": some tag at all (false for the empty tag set)
 # operand names that need escaping in the expression text: ( ) blank backslash
-HOSTILE_LITS = ["p(q)", "x y", "a\\b"]
-HOSTILE_PATS = ["p(*", "x ?", "f*\\", "\\*", "a\\?b", "f[o\\]o"]
+HOSTILE_LITS = ["p(q)", "x y", "a\\b", "x  y"]
+HOSTILE_PATS = ["p(*", "x ?", "f*\\", "\\*", "a\\?b", "f[o\\]o", "x  ?", "a \t*"]
 UNIVERSE = ["a", "b.c", "x-y=1", "foo", "ab", "p(q)"]
 
 
